@@ -164,6 +164,18 @@ def check_vals(W, like, x, ll, blob, kind, label, detail):
         return
     if kind == 'scalar':
         W.require(W.same(blob, like.blob(x, 0)), label + '-blob', detail)
+    elif kind == 'mixed':
+        try:
+            b0, b1 = blob[0], blob[1]
+            n_ok = len(blob) == 2
+        except Exception:
+            b0 = b1 = None
+            n_ok = False
+        W.require(n_ok, label + '-blob-shape', detail)
+        if n_ok:
+            W.require(world._and(W.same(b0, W.uf('BlI', x, 'int')),
+                                 W.same(b1, like.blob(x, 1))),
+                      label + '-blob', detail)
     else:
         try:
             b0, b1 = blob[0], blob[1]
